@@ -23,9 +23,9 @@ func c06Alphabet() []fsx.Op {
 		// renames whose inodes coincide or are ordered arbitrarily
 		{K: "RENAME", H: "root", N: "a", H2: "root", N2: "."},
 		{K: "RENAME", H: "root", N: "a", H2: "root", N2: ".."},
-		{K: "RENAME", H: "root", N: "d", H2: "root/d", N2: "y"},    // directory into itself, over an existing entry
-		{K: "RENAME", H: "root", N: "d", H2: "root/d", N2: "new"},  // directory into itself
-		{K: "RENAME", H: "root/d", N: "x", H2: "root", N2: "d"},    // over its own parent directory
+		{K: "RENAME", H: "root", N: "d", H2: "root/d", N2: "y"},   // directory into itself, over an existing entry
+		{K: "RENAME", H: "root", N: "d", H2: "root/d", N2: "new"}, // directory into itself
+		{K: "RENAME", H: "root/d", N: "x", H2: "root", N2: "d"},   // over its own parent directory
 		{K: "RENAME", H: "root/d", N: "y", H2: "root", N2: "d"},
 		{K: "RENAME", H: "root", N: "a", H2: "root", N2: "d"},
 		{K: "RENAME", H: "root", N: "d", H2: "root", N2: "a"},
@@ -60,8 +60,8 @@ type lockEdge struct {
 }
 
 type lockTrace struct {
-	Op    fsx.Op     `json:"op"`
-	Class string     `json:"class"`
+	Op    fsx.Op      `json:"op"`
+	Class string      `json:"class"`
 	Edges [][2]uint64 `json:"edges"` // acquired [1] while holding [0]
 }
 
